@@ -28,7 +28,9 @@ try:
   # the script's own directory is sys.path[0]; assertions that pin the sub-agent's worktree path are neutralised
   import re
   src = open(demo).read()
-  src = re.sub(r"^([ \t]*)assert [^\n]*__file__[^\n]*?((\\\n)[^\n]*)*$", r"\1pass", src, flags=re.M)
+  sys.path.insert(0, os.path.dirname(os.path.abspath(__file__)))
+  import stripassert
+  src = stripassert.strip(src)
   open(os.path.join(dst, 'demo_seed.py'), 'w').write(src)
   def run_demo():
     r = subprocess.run(['/venv/bin/python', 'demo_seed.py'], cwd=dst, env=env, stdout=subprocess.PIPE, stderr=subprocess.STDOUT, text=True)
